@@ -1,16 +1,22 @@
 //! Native validation of the oracles against the repository's known-answer vectors (tests/data/*.blb)
 //! and the standards' own examples.  Exit 0 iff every oracle agrees with every vector.
+mod v_a;
+mod v_b;
+mod v_c;
+mod v_d;
+mod v_e;
+mod v_me;
 use blobby::Blob3Iterator;
 use std::fs;
 
-fn vectors(repo: &str, rel: &str) -> Vec<(Vec<u8>, Vec<u8>, Vec<u8>)> {
+pub fn vectors(repo: &str, rel: &str) -> Vec<(Vec<u8>, Vec<u8>, Vec<u8>)> {
     let data = fs::read(format!("{repo}/{rel}")).unwrap_or_else(|e| panic!("{rel}: {e}"));
     Blob3Iterator::new(&data).unwrap().map(|r| { let [k, p, c] = r.unwrap(); (k.to_vec(), p.to_vec(), c.to_vec()) }).collect()
 }
 
-struct T { fails: usize, total: usize }
+pub struct T { pub fails: usize, pub total: usize }
 impl T {
-    fn kat(&mut self, repo: &str, rel: &str, name: &str, enc: &dyn Fn(&[u8], &[u8]) -> Vec<u8>, dec: &dyn Fn(&[u8], &[u8]) -> Vec<u8>) {
+    pub fn kat(&mut self, repo: &str, rel: &str, name: &str, enc: &dyn Fn(&[u8], &[u8]) -> Vec<u8>, dec: &dyn Fn(&[u8], &[u8]) -> Vec<u8>) {
         let vs = vectors(repo, rel);
         let mut bad = 0;
         for (k, p, c) in &vs {
@@ -20,7 +26,7 @@ impl T {
         self.fails += bad;
         println!("oracle {name:24} {rel:40} vectors={} mismatches={bad}", vs.len());
     }
-    fn check(&mut self, name: &str, ok: bool) {
+    pub fn check(&mut self, name: &str, ok: bool) {
         self.total += 1;
         if !ok { self.fails += 1; }
         println!("oracle {name:24} {}", if ok { "ok" } else { "MISMATCH" });
@@ -46,5 +52,10 @@ fn main() {
 }
 
 fn more(_repo: &str, _t: &mut T) {
-    // further oracle validations are appended here as oracles are added
+    v_me::run(_repo, _t);
+    v_a::run(_repo, _t);
+    v_b::run(_repo, _t);
+    v_c::run(_repo, _t);
+    v_d::run(_repo, _t);
+    v_e::run(_repo, _t);
 }
